@@ -16,7 +16,13 @@
                               and Convert transactions are pricing transactions;
     - [tx_gap_preserved]    : (envelope: underlying coin = usei) starting from [Books], every successful
                               transaction changes delegated and booked stake by the same amount
-                              (delegated - booked is unchanged). *)
+                              (delegated - booked is unchanged);
+    - [tx_nosurplus_preserved] / [step_nosurplus_preserved] / [tx_books_exact_after_pricing] :
+                              delegated <= booked is kept by every transaction and operation (except
+                              re-instantiating the hub), hence after a pricing transaction the booked
+                              stake EQUALS the delegated stake.
+    Helper files: BooksEnv.v (environment), BooksHub.v (handlers), BooksLiquid.v (liquid balance),
+    BooksExamples.v (non-vacuity). *)
 From Krp Require Import Tactics Prelude Fixed FMap Types Env Registry Cw20 Reward Dispatcher Hub Exec
      ExecP Hist Inv RegistryP HubFrame HubAdmin BooksEnv BooksHub.
 Open Scope N_scope.
@@ -667,4 +673,165 @@ Proof.
         destruct (sender =? A_hub); lia. }
   destruct G as (_ & _ & G). destruct (G h' Hh') as [_ Heq].
   unfold pD, pU in Heq. cbn [map sumN] in Heq. lia.
+Qed.
+
+(** ** the converse bound and the equality at synchronisation points (E4: staking coin = usei) *)
+Definition GeS (w : world) (stk : list (addr * cmsg)) : Prop :=
+  DelWf (w_env w) /\ DUFirst stk /\
+  forall h, w_hub w = Some h ->
+    hp_underlying (h_params h) = usei /\
+    delegated (w_env w) A_hub + pD stk <= booked h + pU stk.
+
+(** the hub never has more delegated than it has booked (slashing only widens the difference) *)
+Definition NoSurplus (w : world) : Prop :=
+  DelWf (w_env w) /\
+  forall h, w_hub w = Some h ->
+    hp_underlying (h_params h) = usei /\ delegated (w_env w) A_hub <= booked h.
+
+Lemma step_msg_ge w s m rest w' out :
+  GeS w ((s, m) :: rest) -> step_msg w s m = Some (w', out) -> GeS w' (out ++ rest).
+Proof.
+  intros (Hwf & Hdu & HB) H. apply step_msg_cases in H.
+  destruct (pDU_cons s m rest) as [ED EU]. rewrite ED, EU in HB. clear ED EU.
+  unfold GeS. rewrite pD_app, pU_app. cbn [DUFirst] in Hdu.
+  destruct H as [funds hm e1 h h' o -> Hsend Hw He -> -> | Hh Hd Hout Hst _
+                | v c e' -> He -> -> | v c e' -> He -> -> | a b c e' -> He -> ->].
+  - assert (Hhd : hub_du (s, MWasm A_hub (WHub hm) funds) = false)
+      by (unfold hub_du; cbn [fst snd is_du]; apply andb_false_r).
+    rewrite Hhd in Hdu. destruct (NoHubDU_sums _ Hdu) as [RD RU].
+    apply send_coins_static in Hsend. destruct Hsend as (_ & _ & Hdel & _).
+    destruct (HB h Hw) as [Hu Heq].
+    assert (Z : hub_d (s, MWasm A_hub (WHub hm) funds) = 0 /\ hub_u (s, MWasm A_hub (WHub hm) funds) = 0).
+    { unfold hub_d, hub_u. cbn [fst snd dmsg_amt umsg_amt]. destruct (s =? A_hub); auto. }
+    destruct Z as [Z1 Z2]. rewrite Z1, Z2, RD, RU in Heq.
+    pose proof (hub_execute_underlying _ _ _ _ _ _ _ _ He) as Hu'.
+    pose proof (hub_execute_books _ _ _ _ _ _ _ _ He) as (P & Q & Hfirst).
+    cbn [w_env w_hub set_hub set_env]. split; [eapply DelWf_same_del; eauto|].
+    split; [apply DUFirst_hub_out; assumption|].
+    intros h0 E. inversion E; subst h0. split; [congruence|].
+    rewrite pD_hub, pU_hub, RD, RU, (delegated_same_del _ _ A_hub Hdel).
+    destruct (is_pricing hm).
+    + destruct (P eq_refl) as (h1 & Hs & Eq).
+      apply slashing_spec in Hs. destruct Hs as (act & _ & Hact & Hcase).
+      specialize (Hact Hu). cbn [w_env set_env] in Hact. rewrite (delegated_same_del _ _ A_hub Hdel) in Hact.
+      destruct Hcase as [(A & B & _)|(A & B)]; unfold booked in *; lia.
+    + destruct (Q eq_refl) as (A & B & C). destruct (NoDU_sums _ C) as [-> ->]. unfold booked in *. lia.
+  - assert (Hhd : hub_du (s, m) = false).
+    { unfold hub_du. cbn [fst snd]. destruct m; cbn [is_du is_staking] in *; try discriminate; apply andb_false_r. }
+    rewrite Hhd in Hdu.
+    split; [eapply DelWf_same_del; eauto|].
+    split; [apply NoHubDU_DUFirst; apply Forall_app; split; [apply NoHubDU_nonhub; exact Hout|exact Hdu]|].
+    intros h E. rewrite Hh in E. destruct (HB h E) as [Hu Heq]. split; [exact Hu|].
+    destruct (pDU_nonhub _ Hout) as [-> ->]. rewrite (delegated_same_del _ _ A_hub Hd).
+    assert (Z : hub_d (s, m) = 0 /\ hub_u (s, m) = 0).
+    { unfold hub_d, hub_u. cbn [fst snd]. destruct (s =? A_hub); [|auto].
+      destruct m; cbn [dmsg_amt umsg_amt is_staking] in *; auto; discriminate. }
+    destruct Z as [Z1 Z2]. lia.
+  - cbn [w_env w_hub set_env app]. apply do_delegate_spec in He.
+    destruct He as (_ & _ & _ & _ & _ & _ & Hdg & Hoth & _ & _ & _ & _ & _ & _ & _ & _ & Hwf').
+    split; [apply Hwf'; exact Hwf|].
+    unfold hub_du in Hdu. unfold hub_d, hub_u in HB. cbn [fst snd is_du dmsg_amt umsg_amt] in *.
+    destruct (s =? A_hub) eqn:Es; cbn [andb] in Hdu.
+    + apply N.eqb_eq in Es. subst s. split; [exact Hdu|].
+      intros h E. destruct (HB h E) as [Hu Heq]. split; [exact Hu|]. rewrite Hdg.
+      cbn [pD pU map sumN]. lia.
+    + apply N.eqb_neq in Es. split; [apply NoHubDU_DUFirst; exact Hdu|].
+      intros h E. destruct (HB h E) as [Hu Heq]. split; [exact Hu|].
+      unfold delegated. rewrite Hoth by congruence. fold (delegated (w_env w) A_hub).
+      cbn [pD pU map sumN]. lia.
+  - cbn [w_env w_hub set_env app]. apply do_undelegate_spec in He; [|exact Hwf].
+    destruct He as (_ & _ & _ & _ & _ & _ & Hdg & Hoth & _ & _ & _ & _ & _ & _ & _ & Hwf').
+    split; [exact Hwf'|].
+    unfold hub_du in Hdu. unfold hub_d, hub_u in HB. cbn [fst snd is_du dmsg_amt umsg_amt] in *.
+    destruct (s =? A_hub) eqn:Es; cbn [andb] in Hdu.
+    + apply N.eqb_eq in Es. subst s. split; [exact Hdu|].
+      intros h E. destruct (HB h E) as [Hu Heq]. split; [exact Hu|]. cbn [pD pU map sumN]. lia.
+    + apply N.eqb_neq in Es. split; [apply NoHubDU_DUFirst; exact Hdu|].
+      intros h E. destruct (HB h E) as [Hu Heq]. split; [exact Hu|].
+      unfold delegated. rewrite Hoth by congruence. fold (delegated (w_env w) A_hub).
+      cbn [pD pU map sumN]. lia.
+  - cbn [w_env w_hub set_env app]. apply do_redelegate_spec in He; [|exact Hwf].
+    destruct He as (_ & _ & _ & _ & _ & _ & _ & _ & _ & Hdg & Hoth & _ & _ & _ & _ & _ & _ & _ & _ & Hwf').
+    split; [exact Hwf'|].
+    assert (Hhd : hub_du (s, MRedelegate a b c) = false) by (unfold hub_du; cbn [fst snd is_du]; apply andb_false_r).
+    rewrite Hhd in Hdu. split; [apply NoHubDU_DUFirst; exact Hdu|].
+    intros h E. destruct (HB h E) as [Hu Heq]. split; [exact Hu|].
+    unfold hub_d, hub_u in Heq. cbn [fst snd dmsg_amt umsg_amt] in Heq.
+    assert (Hsame : delegated e' A_hub = delegated (w_env w) A_hub).
+    { destruct (s =? A_hub) eqn:Es.
+      - apply N.eqb_eq in Es. subst s. exact Hdg.
+      - apply N.eqb_neq in Es. unfold delegated. rewrite Hoth by congruence. reflexivity. }
+    rewrite Hsame. cbn [pD pU map sumN]. destruct (s =? A_hub); lia.
+Qed.
+
+Theorem tx_nosurplus_preserved w sender target m funds w' tr :
+  NoSurplus w -> run tx_fuel w [(sender, MWasm target m funds)] [] = Some (w', tr) -> NoSurplus w'.
+Proof.
+  intros [Hwf HN] H.
+  assert (G : GeS w' []).
+  { eapply (run_preserves_stack GeS); [| |exact H].
+    - intros. eapply step_msg_ge; eauto.
+    - split; [exact Hwf|]. split.
+      + cbn [DUFirst]. unfold hub_du. cbn [fst snd is_du]. rewrite andb_false_r. constructor.
+      + intros h E. destruct (HN h E) as [Hu Hle]. split; [exact Hu|].
+        unfold pD, pU, hub_d, hub_u. cbn [map sumN fst snd dmsg_amt umsg_amt].
+        destruct (sender =? A_hub); lia. }
+  destruct G as (A & _ & G). split; [exact A|]. intros h E. destruct (G h E) as [Hu Hle].
+  split; [exact Hu|]. unfold pD, pU in Hle. cbn [map sumN] in Hle. lia.
+Qed.
+
+(** C02, exact form at synchronisation points: with no surplus delegation before, after a successful
+    transaction that executed a pricing hub message the booked stake EQUALS the delegated stake *)
+Theorem tx_books_exact_after_pricing w sender target m funds w' tr h' :
+  EntWf w -> NoSurplus w ->
+  run tx_fuel w [(sender, MWasm target m funds)] [] = Some (w', tr) ->
+  existsb is_pricing_msg tr = true ->
+  w_hub w' = Some h' ->
+  booked h' = delegated (w_env w') A_hub.
+Proof.
+  intros HE HN H Hp Hh'.
+  destruct (tx_books_after_pricing _ _ _ _ _ _ _ HE H Hp) as [_ HB].
+  destruct (tx_nosurplus_preserved _ _ _ _ _ _ _ HN H) as [_ HG].
+  specialize (HB h' Hh'). destruct (HG h' Hh') as [_ Hle]. lia.
+Qed.
+
+(** [NoSurplus] is kept by every operation of a history except a (re-)instantiation of the hub over
+    existing delegations *)
+Theorem step_nosurplus_preserved w o :
+  NoSurplus w ->
+  (forall a b c d e f g i, o <> OInstHub a b c d e f g i) ->
+  NoSurplus (fst (step w o)).
+Proof.
+  intros [Hwf HN] Hni. unfold NoSurplus. destruct o; cbn [step].
+  - split; [apply DelWf_empty|]. intros h Hh. discriminate.
+  - destruct (e_now (w_env w) + dt <=? 18446744073); cbn [fst]; [|split; assumption].
+    split; cbn [w_env set_env w_hub].
+    + eapply DelWf_same_del; [apply ev_advance_del|exact Hwf].
+    + intros h Hh. rewrite (delegated_same_del _ _ A_hub (ev_advance_del (w_env w) dt)). apply HN. exact Hh.
+  - destruct (ev_slash (w_env w) v num den unb) as [e'|] eqn:Es; cbn [fst]; [|split; assumption].
+    apply ev_slash_spec in Es. destruct Es as (_ & _ & _ & _ & _ & Hle & _ & _ & _ & _ & Hwf').
+    split; cbn [w_env set_env w_hub]; [apply Hwf'; exact Hwf|].
+    intros h Hh. destruct (HN h Hh) as [Hu Hl]. split; [exact Hu|]. specialize (Hle A_hub). lia.
+  - destruct (ev_accrue (w_env w) A_hub v d a) as [e'|] eqn:Ea; cbn [fst]; [|split; assumption].
+    apply ev_accrue_del in Ea. split; cbn [w_env set_env w_hub]; [eapply DelWf_same_del; eauto|].
+    intros h Hh. rewrite (delegated_same_del _ _ A_hub Ea). apply HN. exact Hh.
+  - split; [exact Hwf|exact HN].
+  - destruct (p =? 0); cbn [fst]; split; assumption.
+  - split; [exact Hwf|exact HN].
+  - split; [exact Hwf|exact HN].
+  - split; [exact Hwf|exact HN].
+  - destruct (w_hub w) as [h|] eqn:Hh; cbn [fst];
+      [|split; [exact Hwf|intros h0 E; rewrite Hh in E; discriminate E]].
+    split; [exact Hwf|]. cbn [w_hub set_hub w_env]. intros h0 E. inversion E; subst h0.
+    change (booked (set_h_oldwait h (oldwait_put (h_oldwait h) (a, batch) amt))) with (booked h).
+    change (h_params (set_h_oldwait h (oldwait_put (h_oldwait h) (a, batch) amt))) with (h_params h).
+    apply HN. reflexivity.
+  - exfalso. eapply Hni. reflexivity.
+  - split; [exact Hwf|exact HN].
+  - split; [exact Hwf|exact HN].
+  - split; [exact Hwf|exact HN].
+  - split; [exact Hwf|exact HN].
+  - split; [exact Hwf|exact HN].
+  - destruct (run tx_fuel w _ []) as [[w1 tr1]|] eqn:E; cbn [fst]; [|split; assumption].
+    eapply tx_nosurplus_preserved; [split; eassumption|exact E].
 Qed.
